@@ -78,6 +78,7 @@ func Worker17(cfg Config) *evid.Stats {
 		if wr.aborted {
 			st.Probe("step_cap_reached")
 		}
+		st.ProbeN("lock_or_once_sections_entered_without_preemption", wr.holds)
 		if len(wr.finalWChanged) > 0 {
 			st.Probe("weights_differ_after_simulation(not judged under C17)")
 		}
